@@ -70,7 +70,10 @@ def build_translate():
     rc, out = sh([sys.executable, os.path.join(ROOT, "tools", "gen_consts.py")])
     if rc != 0:
         raise BuildBroken("translate", out)
-    return out.strip()
+    rc2, out2 = sh([sys.executable, os.path.join(ROOT, "tools", "gen_assets.py")])
+    if rc2 != 0:
+        raise BuildBroken("translate-assets", out2)
+    return (out.strip() + "; " + out2.strip())
 
 
 def coq_make(targets, timeout=3000):
